@@ -168,6 +168,7 @@ class DataChunk(Chunk):
     _abandoned: bool
     _book_size: int
     _expiry: Optional[float]
+    _in_flight: bool
     _max_retransmits: Optional[int]
     _misses: int
     _retransmit: bool
@@ -831,9 +832,12 @@ class RTCSctpTransport(AsyncIOEventEmitter):
         self._set_state(self.State.COOKIE_WAIT)
 
     def _flight_size_decrease(self, chunk: DataChunk) -> None:
-        self._flight_size = max(0, self._flight_size - chunk._book_size)
+        if chunk._in_flight:
+            chunk._in_flight = False
+            self._flight_size = max(0, self._flight_size - chunk._book_size)
 
     def _flight_size_increase(self, chunk: DataChunk) -> None:
+        chunk._in_flight = True
         self._flight_size += chunk._book_size
 
     def _get_extensions(self, params: list[tuple[int, bytes]]) -> None:
@@ -923,12 +927,14 @@ class RTCSctpTransport(AsyncIOEventEmitter):
             ochunk = self._sent_queue[pos]
             ochunk._abandoned = True
             ochunk._retransmit = False
+            self._flight_size_decrease(ochunk)
             if ochunk.flags & SCTP_DATA_FIRST_FRAG:
                 break
         for pos in range(chunk_pos, len(self._sent_queue)):
             ochunk = self._sent_queue[pos]
             ochunk._abandoned = True
             ochunk._retransmit = False
+            self._flight_size_decrease(ochunk)
             if ochunk.flags & SCTP_DATA_LAST_FRAG:
                 break
         else:
@@ -1379,6 +1385,7 @@ class RTCSctpTransport(AsyncIOEventEmitter):
             chunk._acked = False
             chunk._book_size = len(chunk.user_data)
             chunk._expiry = expiry
+            chunk._in_flight = False
             chunk._max_retransmits = max_retransmits
             chunk._misses = 0
             chunk._retransmit = False
@@ -1540,6 +1547,7 @@ class RTCSctpTransport(AsyncIOEventEmitter):
         for chunk in self._sent_queue:
             if not self._maybe_abandon(chunk):
                 chunk._retransmit = True
+            chunk._in_flight = False
         self._update_advanced_peer_ack_point(retransmit=True)
 
         # adjust congestion window
